@@ -352,5 +352,8 @@ def write_evidence(prop, tier, seed, ctx, audit, level, rule, violations, assump
         cov.update(extra)
     ev = dict(property_id=prop, tier=tier, seed=seed, level=level, coverage=cov,
               assumptions=assumptions, wall_s=round(time.time() - ctx.t0, 2), violations=violations)
-    os.makedirs(os.path.join(ROOT, "evidence"), exist_ok=True)
-    json.dump(ev, open(os.path.join(ROOT, "evidence", prop + ".json"), "w"), indent=1, default=str)
+    # VERIF_EVIDENCE_DIR: only the seeded / neutral tooling sets it (runs against a patched copy must not overwrite the
+    # evidence of the real tree); every registered command writes /verif/evidence/<id>.json
+    evdir = os.environ.get("VERIF_EVIDENCE_DIR") or os.path.join(ROOT, "evidence")
+    os.makedirs(evdir, exist_ok=True)
+    json.dump(ev, open(os.path.join(evdir, prop + ".json"), "w"), indent=1, default=str)
